@@ -47,10 +47,12 @@ def lexers_main(quick):
     pub mod arms { lexgen::lexer! { pub L -> u8; %s = 1, } }      // one match arm per range (accepting transition)
     pub mod guard { lexgen::lexer! { pub L -> u8; (%s) '!' = 1, } } // one guard: chain of range tests (<= 9 ranges) or binary-search table
     pub mod looped { lexgen::lexer! { pub L -> u8; (%s)+ = 1, } }   // guard reused in a non-inlined looping state
+    pub mod ctx { lexgen::lexer! { pub L -> u8; 'a' > (%s) = 1, 'a' = 2, } }          // the class decides a right context (accepting ranges of the context automaton)
+    pub mod ctx2 { lexgen::lexer! { pub L -> u8; 'a' > ((%s) '!') = 1, 'a' = 2, } }   // the class leads to a non-accepting state of the context automaton
     pub fn pred(c: char) -> bool { %s }
-}""" % (m, expr, expr, expr, pred))
-        calls.append('    bad += check("%s", %s::pred, |s| one(%s::arms::L::new(s).next(), s), |s| one(%s::guard::L::new(s).next(), s), |s| one(%s::looped::L::new(s).next(), s));'
-                     % (label, m, m, m, m))
+}""" % (m, expr, expr, expr, expr, expr, pred))
+        calls.append('    bad += check("%s", %s::pred, |s| one(%s::arms::L::new(s).next(), s), |s| one(%s::guard::L::new(s).next(), s), |s| one(%s::looped::L::new(s).next(), s), '
+                     '|s| first_is_rule1(%s::ctx::L::new(s).next()), |s| first_is_rule1(%s::ctx2::L::new(s).next()));' % (label, m, m, m, m, m, m))
     return """// C13, obligation 4c: macro-expanded lexers (built by the REAL macro from the snapshot) run on every Unicode
 // scalar value, in the three generated membership-test shapes, against the Rust predicate.  Exhaustive
 // enumeration of a finite domain; reported separately from verifier obligations.
@@ -58,7 +60,9 @@ def lexers_main(quick):
 %s
 type Item = Option<Result<(lexgen_util::Loc, u8, lexgen_util::Loc), lexgen_util::LexerError<std::convert::Infallible>>>;
 fn one(it: Item, s: &str) -> bool { matches!(it, Some(Ok((st, 1, e))) if st.byte_idx == 0 && e.byte_idx == s.len()) }
-fn check(name: &str, pred: fn(char) -> bool, arms: impl Fn(&str) -> bool, guard: impl Fn(&str) -> bool, looped: impl Fn(&str) -> bool) -> u32 {
+fn first_is_rule1(it: Item) -> bool { matches!(it, Some(Ok((st, 1, e))) if st.byte_idx == 0 && e.byte_idx == 1) }
+fn check(name: &str, pred: fn(char) -> bool, arms: impl Fn(&str) -> bool, guard: impl Fn(&str) -> bool, looped: impl Fn(&str) -> bool,
+         ctx: impl Fn(&str) -> bool, ctx2: impl Fn(&str) -> bool) -> u32 {
     let mut buf = String::new();
     let mut nbad = 0u32; let mut n = 0u32;
     for i in 0..=0x10FFFFu32 {
@@ -70,9 +74,13 @@ fn check(name: &str, pred: fn(char) -> bool, arms: impl Fn(&str) -> bool, guard:
         let l = looped(&buf);
         buf.push('!');
         let g = guard(&buf);
-        if a != want || g != want || l != want {
+        buf.clear(); buf.push('a'); buf.push(ch);
+        let x = ctx(&buf);
+        buf.push('!');
+        let x2 = ctx2(&buf);
+        if a != want || g != want || l != want || x != want || x2 != want {
             nbad += 1;
-            if nbad <= 3 { println!("MISMATCH {} U+{:04X}: predicate {} arms-shape {} guard/table-shape {} looped-shape {}", name, i, want, a, g, l); }
+            if nbad <= 3 { println!("MISMATCH {} U+{:04X}: predicate {} arms-shape {} guard/table-shape {} looped-shape {} right-context-shape {} right-context-inner-shape {}", name, i, want, a, g, l, x, x2); }
         }
     }
     if nbad == 0 { println!("CLASS {} ok scalars={}", name, n); } else { println!("CLASSBAD {} differing={}", name, nbad); }
